@@ -9,10 +9,16 @@ import DaskModel.Generated.ChunkTolerance
 /-!
 # C24 — structural array operations equal NumPy (theorems)
 
-One axis at a time (the n-d operations are products of the one-axis plans; the n-d behaviour and
-everything not modelled — transpose, squeeze/expand_dims, stack/block, broadcast_to, rot90, take/shuffle,
-tile, tril/triu, diff, statistics/edge/constant/linear_ramp pads, the full `reshape_rechunk` — is
-validated against NumPy by harness/props/c24.py).
+* one-axis plans on lists of blocks: `concat_den`, `roll_den`, `repeat_den`, `pad_reuse_den`, `flip1d_den`, `tile_den`, `diff_den`;
+* `_shuffle` as a whole and `slicing.take`: `shuffle_den`, `packGroups_flatten`, `shuffle_noop_iff_identity`,
+  `shuffle_blocks_den`, `take_den` (+ totality);
+* `reshape`: `expand_tuple_spec`, `contract_tuple_spec`, the two 2-d plans `reshape_merge_den` / `reshape_merge_ones_den`, and the
+  general n-d statement `reshape_blocks_den` / `reshape_rechunk_groupsOK` / `reshape_den`;
+* blockwise / key-map plans on 2-d block tables: `transpose_den`, `flip_den`, `rot90_den`, `tril_den`, `triu_den`, `stack_den`,
+  `broadcast_to_den`.
+Not proved (validated against NumPy by harness/props/c24.py): n-d versions of the 2-d / 1-d plans (product structure),
+squeeze (integer indexing: slicing group), block / tile with nested lists (nested `concatenate`), statistics / edge / constant /
+linear_ramp pads, `repeat`'s slab cutting, `_rechunk_other_dimensions` of `shuffle`, `x.rechunk(result_inchunks)` (C23).
 -/
 namespace Dask.C24
 open Dask.Chunks Dask.Structural Dask.Reshape
@@ -37,6 +43,9 @@ theorem concat_blocks {α} (blockss : List (List (List α))) : concatBlocks bloc
   exact map_blockOf_eq_flatten [] blockss
 
 
+/-- non-vacuity of `concat_den`: two arrays chunked `(2, 1)` and `(3,)` -/
+example : (List.zipWith splitBy [[2, 1], [3]] [[1, 2, 3], [4, 5, 6]]).flatten = splitBy (concatChunks [[2, 1], [3]]) [1, 2, 3, 4, 5, 6] :=
+  concat_den [[2, 1], [3]] [[1, 2, 3], [4, 5, 6]] rfl (by decide)
 example : concatPlan [2, 1, 3] 3 = some (2, 0) := by rfl
 example : concatBlocks [[[1, 2], [3]], [[4]]] = [[1, 2], [3], [4]] := by rfl
 
@@ -184,6 +193,10 @@ theorem reshape_merge_den {α} (m : Nat) : ∀ (cs : List Nat) (rows : List (Lis
     simp only [reshapeMergeBlocks, splitBy, List.map_cons] at ih ⊢
     rw [i1, ih, i2]
 
+/-- non-vacuity of `reshape_merge_den`: 3 rows of length 2, row chunks `(2, 1)` -/
+example : reshapeMergeBlocks [2, 1] [[1, 2], [3, 4], [5, 6]] = splitBy [4, 2] [1, 2, 3, 4, 5, 6] :=
+  reshape_merge_den 2 [2, 1] [[1, 2], [3, 4], [5, 6]] (by decide)
+
 /-- **shuffle_den** (`take` / `shuffle`, one output chunk): per source chunk a fancy `getitem` with the local positions of
     the *sorted* taker, concatenation, then `take(…, argsort(sorter))` puts element `taker[p]` of the axis at position
     `p` — for every old chunking and every taker (duplicates, any order). -/
@@ -233,6 +246,8 @@ theorem shuffle_den {α} [Inhabited α] (old : List Nat) (xs : List α) (T : Lis
     simp [← hpair]
 
 example : shuffleChunk [2, 3] (splitBy [2, 3] [10, 11, 12, 13, 14]) [4, 0, 4, 2] = [14, 10, 14, 12] := by decide
+/-- non-vacuity of `shuffle_den`'s hypothesis (every index inside the axis) -/
+example : ∀ g ∈ [4, 0, 4, 2], g < sum [2, 3] := by decide
 
 /-- the grouping loop of `_shuffle` loses / reorders nothing (whatever the size limit and tolerance) and
     never emits an empty chunk -/
@@ -408,6 +423,35 @@ example : (takeBlocks [2, 2] (splitBy [2, 2] [10, 11, 12, 13]) [0, 2, 1, 3] 2 5 
 example : (takeBlocks [2, 2] (splitBy [2, 2] [10, 11, 12, 13]) [0, 1, 2, 3] 2 5 4 : Except ShErr (List (List Nat)))
     = .ok [[10, 11], [12, 13]] := by decide
 
+
+/-- **take_never_noop**: the indexer `slicing.take` hands to `_shuffle` is never the identity chunking (a full arange was
+    answered by `take` itself before), so `_shuffle`'s shortcut `return chunks, {}` -- an *empty* graph, which `take` would
+    pass on as the graph of the result -- is never reached from `x[idx]` / `da.take` -/
+theorem take_never_noop (old : List Nat) (index : List Nat) (ho : old ≠ [])
+    (h : ¬ (index ≠ [] ∧ index.length = sum old ∧ isArange index = true)) :
+    alreadyShuffled old (chunkEvery (averageChunk old) index.length index) = false := by
+  cases hA : alreadyShuffled old (chunkEvery (averageChunk old) index.length index) with
+  | false => rfl
+  | true =>
+    exfalso
+    have hk : 0 < averageChunk old := by unfold averageChunk; omega
+    have hid := (alreadyShuffled_iff old _).1 hA
+    have hfl := chunkEvery_flatten _ hk index.length index (Nat.le_refl _)
+    rw [hid, identityIndexer_flatten] at hfl
+    apply h
+    refine ⟨?_, ?_, ?_⟩
+    · intro h0
+      subst h0
+      have hl := congrArg List.length hid
+      unfold identityIndexer at hl
+      rw [identityFrom_length] at hl
+      simp [chunkEvery] at hl
+      exact ho (List.eq_nil_of_length_eq_zero hl.symm)
+    · rw [← hfl]; simp
+    · unfold isArange
+      rw [← hfl]; simp
+
+example : alreadyShuffled [2, 2] (chunkEvery (averageChunk [2, 2]) 4 [0, 1, 3, 2]) = false := by decide
 
 /-! ### the general `reshape`: `reshape_rechunk`'s plan and the block-by-block `M.reshape` graph
 
